@@ -4,6 +4,7 @@
 package fakedrv
 
 import (
+	"time"
 	"context"
 	"database/sql"
 	"database/sql/driver"
@@ -83,6 +84,9 @@ type Script struct {
 	Faults       []Fault
 	// ExtraResultSets: the query answers with this many further (empty) result sets.
 	ExtraResultSets int
+	// SlowClose: closing a result set takes this long at the driver (it counts as open
+	// until then).
+	SlowClose time.Duration
 }
 
 // State is the per-database state shared by all its connections.
@@ -445,6 +449,12 @@ func (r *rows) NextResultSet() error {
 func (r *rows) Columns() []string { return r.cols }
 
 func (r *rows) Close() error {
+	r.st.c.s.mu.Lock()
+	slow := r.st.c.s.script.SlowClose
+	r.st.c.s.mu.Unlock()
+	if slow > 0 {
+		time.Sleep(slow)
+	}
 	r.st.c.s.mu.Lock()
 	if r.closed {
 		r.st.c.s.DoubleClose++
